@@ -435,7 +435,8 @@ class Unit:
                 continue
             if nolabels:
                 # an included fragment whose obligations are counted by another unit: labels are blanked
-                ln = re.sub(r"^(\s*//\s*)\[[^\]]*\]", r"\1[]", ln)
+                # (kept, but marked with ~ so that a failure is still attributed to the right clause)
+                ln = re.sub(r"^(\s*//\s*)\[([^\]]+)\]", lambda m: m.group(1) + "[" + ",".join("~" + x.strip().lstrip("~") for x in m.group(2).split(",")) + "]", ln)
             out.append(ln)
         return out
 
@@ -754,6 +755,11 @@ class Unit:
             self.emit(impl_open, owner_name, None, "glue")
         if external:
             self.emit("#[verifier::external_body]", owner_name, None, "glue")
+        if "nodecreases" in opts:
+            self.emit("#[verifier::exec_allows_no_decreases_clause]", owner_name, None, "glue")
+            self.dropped.append("fn %s: termination NOT proved (exec_allows_no_decreases_clause)" % path)
+        if "noisolation" in opts:
+            self.emit("#[verifier::loop_isolation(false)]", owner_name, None, "glue")
         self.emit(sig, owner_name, None, "sig", src="%s:%d" % (rel, src_line))
         label = None
         labels = []
